@@ -48,7 +48,7 @@ func genMethod(r *rand.Rand, name string) *methodSpec {
 			n = 0
 		}
 		for _, k := range pickKeys(r, n, nil) {
-			m.signers = append(m.signers, randomSigner(r, k, 0.3))
+			m.signers = append(m.signers, randomSigner(r, k, 0.3, true))
 		}
 		m.viaCallback = r.IntN(5) < 2
 		m.signersErr = r.IntN(33) == 0
@@ -168,8 +168,8 @@ func genPolicy(r *rand.Rand, spec *clientSpec) *policy {
 // nDirected is the number of directed templates; case i uses template
 // i%nSlots when that is < nDirected and the free generator otherwise.
 const (
-	nDirected = 12
-	nSlots    = 24
+	nDirected = 14
+	nSlots    = 28
 )
 
 var rsaOrders = [][]string{
@@ -193,7 +193,7 @@ func directed(r *rand.Rand, k int, round int64) (*clientSpec, *policy) {
 		useMini()
 	}
 	rsaKey := func() *poolKey { return pickKeys(r, 1, func(k *poolKey) bool { return k.isRSA() })[0] }
-	anySigner := func(k *poolKey) *signerSpec { return randomSigner(r, k, 0.3) }
+	anySigner := func(k *poolKey) *signerSpec { return randomSigner(r, k, 0.3, false) }
 	rsaSigner := func(k *poolKey, cert bool, v int64) *signerSpec {
 		// cycle through the signer kinds and explicit orders
 		n := int64(3 + len(rsaOrders))
@@ -384,6 +384,47 @@ func directed(r *rand.Rand, k int, round int64) (*clientSpec, *policy) {
 		p.listWeights = [6]int{0, 1, 0, 0, 0, 0}
 		p.pkWeights = [nPKModes]int{1, 0, 0, 0, 0, 1}
 		p.pkFailKeepsPK, p.signedFailKeepsPK = 0, 0
+	case 12: // a signer that fails to sign after an earlier key's signature was refused with a new list
+		p.directed = "sign-error-after-refused-signature"
+		ks := pickKeys(r, 2+r.IntN(2), nil)
+		pm := &methodSpec{name: "publickey"}
+		for i, k := range ks {
+			kind := kindDefault
+			if i == 1 {
+				kind = kindFailing
+			}
+			pm.signers = append(pm.signers, buildSigner(k, kind, nil, r.IntN(4) == 0, false))
+		}
+		spec.methods = []*methodSpec{pm, {name: "password"}, {name: "keyboard-interactive"}}
+		p.signedFailKeepsPK = 1
+		if round%2 == 0 {
+			// publickey first; the refused signature comes with a list that keeps
+			// publickey but none of the client's other methods
+			if r.IntN(2) == 0 {
+				spec.methods[1], spec.methods[2] = spec.methods[2], spec.methods[1]
+			}
+			p.initial = []string{"publickey", "password", "keyboard-interactive"}
+			p.listWeights = [6]int{0, 0, 0, 0, 0, 1}
+			break
+		}
+		r.Shuffle(3, func(i, j int) { spec.methods[i], spec.methods[j] = spec.methods[j], spec.methods[i] })
+		p.initial = []string{"publickey"}
+		if r.IntN(2) == 0 {
+			p.initial = []string{"publickey", "password", "keyboard-interactive"}
+		}
+		p.listWeights = [6]int{0, 0, 2, 1, 0, 1}
+	case 13: // RetryableAuthMethod whose second inner run fails locally after the first one was refused with a new list
+		p.directed = "retryable-local-error-after-refused-run"
+		first := &methodSpec{name: "password", wrapped: true, maxTries: mon.Pick(r, []int{2, 3, 0, -1}), pwViaCallback: true, pwErrOnCall: 2}
+		second := &methodSpec{name: mon.Pick(r, []string{"keyboard-interactive", "publickey"})}
+		if second.name == "publickey" {
+			second.signers = []*signerSpec{buildSigner(pickKeys(r, 1, nil)[0], kindDefault, nil, false, false)}
+		}
+		spec.methods = []*methodSpec{first, second}
+		p.initial = []string{"password", second.name}
+		// the refusal lists password (and methods the client lacks), not the second method
+		p.listWeights = [6]int{0, 0, 0, 0, 0, 1}
+		p.keepListed = true
 	default:
 		panic(fmt.Sprint("no template ", k))
 	}
